@@ -26,15 +26,25 @@ type LeveldbDiskStorage struct {
 
 // Create a new table, destroying any existing table.
 func (f LeveldbDiskStorage) Create(tbl *btapb.Table) Rows {
-	f.SetTableMeta(tbl)
 	path := filepath.Join(f.Root, tbl.Name)
 	newFunc := func(nuke bool) *leveldb.DB {
 		return newDiskDb(path, nuke)
 	}
 
-	return &leveldbRows{
+	// Destroy any old data before the table becomes visible to GetTables.
+	rows := &leveldbRows{
 		db:      newFunc(true),
 		newFunc: newFunc,
+	}
+	f.SetTableMeta(tbl)
+	return rows
+}
+
+// DeleteTable forgets the table's persisted metadata so that GetTables no longer finds it.
+func (f LeveldbDiskStorage) DeleteTable(tbl *btapb.Table) {
+	outPath := filepath.Join(f.Root, tbl.Name) + ".table.proto"
+	if err := fsRemove(outPath); err != nil && !os.IsNotExist(err) {
+		f.errLog(err, "os.Remove %q", outPath)
 	}
 }
 
